@@ -50,8 +50,6 @@ Fixpoint remove_swap (id : Z) (pool : list backend) : list backend :=
       else b :: remove_swap id t
   end.
 
-Definition zlen {A} (l : list A) : Z := Z.of_nat (length l).
-
 Definition nthZ {A} (l : list A) (i : Z) : option A :=
   if i <? 0 then None else nth_error l (Z.to_nat i).
 
